@@ -322,7 +322,10 @@ def c16_check(tier, replay=None):
                 ("sync", "general", 3, (0, 6), "0.1"),
                 # five threads deep inside nested calls / nested sort_by at the same time
                 ("sync", "deep", 5, (0, 6), "0.1"),
-                ("sync,specialized", "race", 4, (0, 4), "0.3")]
+                # under sync+specialized a shared input value really is shared with the
+                # interpreter (identity conversion): refcount traffic and aliasing across threads
+                ("sync,specialized", "race", 4, (0, 4), "0.3"),
+                ("sync,specialized", "general", 6, (0, 6), "0.05")]
     else:
         plan = []
         classes = ["race", "late", "pool", "general", "deep"]
